@@ -11,6 +11,7 @@ type KnownFinding struct {
 	Property  string `json:"property"`
 	Status    string `json:"status"` // known | fixed
 	What      string `json:"what"`
+	Also      []string `json:"also_properties,omitempty"` // other properties under which the same defect is observable
 	Signature string `json:"signature,omitempty"` // narrow class of witnesses counted under this finding
 	Witness   string `json:"witness,omitempty"`   // human-readable witness (the executable one lives in witnesses.go under the same id)
 	Commit    string `json:"commit,omitempty"`
